@@ -663,10 +663,48 @@ def r2013(ctx, fx, cg):
                             sb, sa, wit(w[0]), wit(w2[0])), w[0][0].where)
 
 
+def r2014(ctx, fx):
+    from . import locks, lockorder
+    rid = ctx.rule("R20.14", "the debugger borrows the language server's context for a look, not for work: in `mos::debugger` no call is made while a guard of `LspContext` "
+                   "is must-alive except methods of the context itself and the standard library's plumbing. A panic under that guard (launching a machine for a "
+                   "`testCaseName` that names a macro) poisons the mutex the main loop locks for every message — `shutdown` is then answered by a panic and the "
+                   "process ends with status 101")
+    n = 0
+    j = 0
+    for f in sorted(fx.all_fns("mos"), key=lambda f: f.path):
+        if not f.blocks or "::tests::" in f.path or not f.path.lstrip("<").startswith("mos::debugger"):
+            continue
+        gl = locks.guard_locals(f)
+        mine = {l for l in gl if (lockorder.guard_of(f.locals[l]["ty"]) or ("", ""))[1].endswith("LspContext")}
+        if not mine:
+            continue
+        at = locks.must_live(f, set(gl))
+        for bi, t in lib.calls(f):
+            if not (set(at.get(bi, ())) & mine):
+                continue
+            p, fr = lib.callee(t)
+            p = p or ""
+            gid = fr.get("rid") or fr.get("id")
+            ws = gid in fx.fns and fx.fns[gid].path.lstrip("<").startswith(("mos::", "mos_core::"))
+            own = "LspContext" in p or "lsp::" in lib.norm(p) and "LspParsingSource" in p
+            n += 1
+            key = "%s|under-the-context#%d" % (f.path, n)
+            ctx.inst(rid, key, sample={"fn": f.path, "line": t.get("line"), "callee": lib.norm(p)[-70:], "workspace_function_outside_the_context": bool(ws and not own)})
+            if ws and not own:
+                j += 1
+                ctx.finding(rid, "%s|work-under-the-context#%d" % (f.path, j),
+                            "%s calls `%s` while it holds the language server's context: if that panics (a launch for a `testCaseName` that is a macro does), the mutex "
+                            "is poisoned, the main loop's next `lock().unwrap()` panics, `shutdown` gets no answer and the exit status is 101" % (
+                                f.path.rstrip(">").rsplit("::", 1)[-1], lib.norm(p).rsplit("::", 2)[-2] + "::" + lib.norm(p).rsplit("::", 1)[-1]), "%s:%s" % (f.file, t.get("line")))
+    if n < 3:
+        ctx.fail_closed(rid, "fewer than 3 calls under a guard of the language server's context found in the debugger (%d)" % n)
+
+
 def run(ctx):
     fx = ctx.facts
     cg = lib.CallGraph(fx)
     r2013(ctx, fx, cg)
+    r2014(ctx, fx)
     r206(ctx, fx)
     r204(ctx, fx, cg)
     r205(ctx, fx)
